@@ -84,6 +84,30 @@ Section Clauses.
     split; [reflexivity|]. split; [rewrite (image_new meta enc); reflexivity|].
     split; [apply af_ok_new; assumption | reflexivity].
   Qed.
+  (* on a file that exists, the header= and delim= keywords of an append, of a later write
+     through the open object and of a reopen are ignored: the file's own header and
+     delimiter count *)
+  Theorem append_ignores_keywords s af o c dl dl' d d' u u' :
+    Inv meta enc s (AFile af o) -> total af + nrows c < 10 ^ 20 -> chunk_ok c ->
+    step meta enc s (FnWrite true dl c d u) = step meta enc s (FnWrite true dl' c d' u')
+    /\ step meta enc s (Reopen dl) = step meta enc s (Reopen dl')
+    /\ (forall m, o = Some m -> step meta enc s (WriteAgain c d u) = step meta enc s (WriteAgain c d' u')).
+  Proof.
+    intros [OK ->] B C.
+    assert (P : 1 <= nrows c).
+    { destruct C as [H _]. unfold nrows. destruct (c_rows c); [contradiction | simpl; lia]. }
+    assert (T : total af < 10 ^ 20) by lia.
+    split; [|split].
+    - cbn [step]. rewrite !close_state, !(reopen_image meta enc) by assumption.
+      destruct (compat (a_dl af) (a_dt af) (c_dt c)) eqn:K.
+      + rewrite !(write_append meta enc) by (try assumption; lia). reflexivity.
+      + rewrite !write_rejected by exact K. reflexivity.
+    - cbn [step]. rewrite !close_state, !(reopen_image meta enc) by assumption. reflexivity.
+    - intros m ->. cbn [step option_map].
+      destruct (compat (a_dl af) (a_dt af) (c_dt c)) eqn:K.
+      + rewrite !(write_append meta enc) by (try assumption; lia). reflexivity.
+      + rewrite !write_rejected by exact K. reflexivity.
+  Qed.
 End Clauses.
 
 (* ------------------------------------------------------------------ closed witnesses *)
